@@ -22,6 +22,8 @@ type qgen struct {
 	vars    map[string]any
 	tags    map[string]bool
 	nvar    int
+	used    map[string]string // response key -> what it selects (avoid most validation conflicts)
+	nkey    int
 }
 
 func (q *qgen) pick(l []string) string { return l[q.r.Below(len(l))] }
@@ -85,6 +87,16 @@ func (q *qgen) gated() string {
 			}
 		}
 	}
+	key := alias
+	if key == "" {
+		key = name
+	}
+	if _, taken := q.used[key]; taken {
+		q.nkey++
+		alias = fmt.Sprintf("u%d", q.nkey)
+		key = alias
+	}
+	q.used[key] = name
 	var b strings.Builder
 	if alias != "" {
 		b.WriteString(alias + ": ")
@@ -119,11 +131,16 @@ func (q *qgen) gated() string {
 func (q *qgen) plain() string {
 	pool := []string{"__typename", "i", "s", "i", "s", "tn: __typename"}
 	if q.fed {
-		pool = append(pool, "thing { id label }", "t2: thing { __typename }")
+		pool = append(pool, "thing { __typename }", "t2: thing { tt: __typename }")
 	} else {
-		pool = append(pool, "iNN", "old", `node { id }`, `image { id width }`, `n2: node(id: "z") { __typename }`)
+		pool = append(pool, "iNN", "old", `image { id width }`, `im2: image(size: {w: 2}) { __typename id }`, `touchless: __typename`)
 	}
 	p := q.pick(pool)
+	key := strings.FieldsFunc(p, func(c rune) bool { return c == ':' || c == ' ' || c == '(' })[0]
+	if prev, taken := q.used[key]; taken && prev != p {
+		p, key = "__typename", "__typename"
+	}
+	q.used[key] = p
 	if p == "iNN" {
 		q.tags["non-null-root-field"] = true
 	}
@@ -186,6 +203,7 @@ func (q *qgen) maybeMore(depth int) string {
 }
 
 func (q *qgen) operation(name string) string {
+	q.used = map[string]string{"__typename": "__typename"}
 	n := 1 + q.r.Below(5)
 	var items []string
 	for i := 0; i < n; i++ {
